@@ -210,14 +210,14 @@ static void run_config(const Config &cfg, uint64_t seed, bool thorough) {
         std::set<long> idxs;
         if (calls <= 64) for (long k = 0; k < (long)calls; k++) idxs.insert(k);
         else for (long k : {0L, 1L, 2L, (long)calls / 2, (long)calls - 2, (long)calls - 1}) idxs.insert(k);
-        for (long k : idxs) for (int kind : {0, 1, 2, 3, 4, 5, 6, 10, 11, 20, 21}) {
+        for (long k : idxs) for (int kind : {0, 1, 2, 3, 4, 5, 6, 7, 8, 9, 10, 11, 20, 21}) {
             if (kind >= 20 && (c.op > 1 || cfg.aux < (long)(c.op == 0 ? cfg.size : c.len))) continue;
             if (kind >= 10 && kind < 20 && (uint64_t)cfg.data_addr() + 2 * cfg.size + 64 > MSIZE) continue;
             c.point = k; c.fkind = kind; run_fault(c);
             if (k > 0) vp::nontrivial(vp::fnv(serc(c)));
             if (vp::want_sample()) vp::sample(serc(c));
         }
-        vp::cls(std::string("fault-points:") + opn[c.op], idxs.size() * 11);
+        vp::cls(std::string("fault-points:") + opn[c.op], idxs.size() * 14);
     }
 }
 
@@ -227,7 +227,7 @@ static void run() {
     size_t maxsize = a.thorough() ? 32 : 16;
     vp::stats().rule = vp::fmt("fault enumeration (images: random, zero from the first third on, or padded with 00/ff from the middle on): data size 1..%zu x placement {0,5} x 3 checksums x aux {none,0,1,2,size-1,size+1} ; per configuration every crash point (total octets the medium accepts before "
                                "the cut, i.e. every whole-write prefix and every torn position) of the full store and of partial stores, followed by validate+fetch on a fresh instance; and a single "
-                               "failing / short (n-1, 1, n-2^16, n-2^8) / over-long (n+1, (size_t)-EIO) medium call (also from a re-entrant driver that validates a mirror record through the library before it answers) at every call index (sampled for operations with more than 64 medium calls); of store, store_part, validate, fetch, fetch_part, reset, on an instance that validated the previous image before and validates again afterwards; a full store onto a medium that acknowledges every write but keeps one bit unchanged / only the first half of the block at one write call, followed by validate+fetch on a fresh instance; plus data sizes 255..257, 65535..65537, 70000 with sampled crash points", maxsize);
+                               "failing / short (n-1, 1, n-2^16, n-2^8) / over-long (n+1, (size_t)-EIO/-EBUSY/-EAGAIN/-EINTR) medium call (also from a re-entrant driver that validates a mirror record through the library before it answers) at every call index (sampled for operations with more than 64 medium calls); of store, store_part, validate, fetch, fetch_part, reset, on an instance that validated the previous image before and validates again afterwards; a full store onto a medium that acknowledges every write but keeps one bit unchanged / only the first half of the block at one write call, followed by validate+fetch on a fresh instance; plus data sizes 255..257, 65535..65537, 70000 with sampled crash points", maxsize);
     vp::stats().exhaustive = true;
     uint64_t idx = 0;
     for (size_t size = 1; size <= maxsize; size++)
